@@ -290,6 +290,9 @@ def build(tier, rnd):
     c = peers.ServerCfg(banner=b'SSH-1.5-Stubborn_1.0', wrong_version_always=True)
     scs.append({'argv': ['-n', HOST], 'servers': {(HOST, 22): c}})
     meta.append(('none', 'always-protocol-mismatch', None, peers.ServerCfg(), False))
+    # client audit with nobody connecting: the listener gives up after the configured timeout
+    scs.append({'argv': ['-n', '-c', '-p', '2222', '-t', '3'], 'clients': []})
+    meta.append(('none', 'client-audit-no-client', None, peers.ServerCfg(), False))
     # unreachable targets
     scs.append({'argv': ['-n', HOST], 'servers': {}})
     meta.append(('none', 'refused', None, peers.ServerCfg(), False))
@@ -395,6 +398,12 @@ def run(tier):
                              '[%s, %s] the peer never delivered a complete, well-formed KEXINIT, yet the audit ends with status %s%s'
                              % (name, what, res.get('exit'), ' and prints an algorithm report' if audit.has_report(res) else ''), replay)
                 continue
+        if what == 'client-audit-no-client':
+            if res.get('exit') != 1 or res.get('vtime', 0) > 3.0 + 1.5:
+                ck.violation('client-audit-listener-timeout', 'client audit with -t 3 and no client: status %s after %.1f virtual seconds' % (res.get('exit'), res.get('vtime', 0)), replay)
+            else:
+                ck.cov['traces_validated_against_impl'] += 1
+            continue
         if what == 'always-protocol-mismatch':
             if res.get('exit') != 1 or res.get('nconn', 0) > 2:
                 ck.violation('protocol-mismatch-retry exit=%s' % res.get('exit'), 'a peer refusing both protocol versions: status %s after %d connections (expected status 1 after at most 2)'
